@@ -52,8 +52,9 @@ def strategy_(g):
         case["eb"]["off_id"] = 0
         case["struct"] = g.choice(["ids", "ids-count", "class", "subclass", "info-shape", "estimate-type", "offset-type", "offset-id", "estimate-pose-type"])
     else:
-        case["g"] = GG.gen(g, n_pose=(2, 5), n_lm=(0, 2), n_loops=(0, 2), conds=(1.0, 1e2), features=("parallel", "reversed", "permute", "ids", "custom", "quat-signs"), custom_flavour="num")
+        case["g"] = GG.gen(g, n_pose=(2, 5), n_lm=(0, 2), n_loops=(0, 2), conds=(1.0, 1e2), features=("parallel", "reversed", "permute", "ids", "custom", "quat-signs", "lm_odo"), custom_flavour="num")
         case["struct"] = g.choice(["drop-edge", "add-vertex", "swap-vertices", "swap-edges", "vertex-id", "edge-class"])
+        case["pre"] = g.choice(["none", "none", "chi2-both", "chi2-one", "optimize-both"])
     return case
 
 
@@ -126,6 +127,25 @@ def _edges_far_apart(ea, eb, tol):
         if float(np.linalg.norm(a - b)) >= 1e3 * tol * max(float(np.linalg.norm(a)), float(np.linalg.norm(b)), tol):
             return True
     return False
+
+
+def _pre_queries(case, ctx, x, y):
+    """History before the comparison (graph level): equals must depend on the compared contents only."""
+    pre = case.get("pre", "none")
+    if pre == "none":
+        return
+    ctx.event("pre:" + pre)
+    if pre == "chi2-both":
+        x.calc_chi2()
+        y.calc_chi2()
+    elif pre == "chi2-one":
+        x.calc_chi2()
+    elif pre == "optimize-both":
+        # zero iterations worth of change is not possible; evaluate chi2/gradient/Hessian through the public API on clones'
+        x.calc_chi2()
+        y.calc_chi2()
+        for e in list(x._edges)[:2] + list(y._edges)[:2]:
+            e.calc_chi2_gradient_hessian()
 
 
 def _expect(ctx, level, x, y, tol, want, what):
@@ -283,7 +303,9 @@ def check(case, ctx):
             name, arr = slots[sel[1] % len(slots)]
             _perturb(arr, sel[2], f, tol)
             ctx.event("perturbed:%s.%s" % (lvl, name))
-            return _expect(ctx, level, x, y, tol, rel == "below", "%s in one %s %s of a graph" % (rel, lvl, name))
+            _pre_queries(case, ctx, x, y)
+            return _expect(ctx, level, x, y, tol, rel == "below", "%s in one %s %s of a graph (after %s)" % (rel, lvl, name, case.get("pre", "none")))
+        _pre_queries(case, ctx, x, y)
         return _expect(ctx, level, x, y, tol, True, "copy of a graph")
     st = case["struct"]
     c2 = copy.deepcopy(gcase)
@@ -329,4 +351,6 @@ def check(case, ctx):
                 break
         else:
             return
+    if st != "edge-class":  # (the edge swapped in there bypasses validation and need not be evaluable)
+        _pre_queries(case, ctx, x, y)
     return _expect(ctx, level, x, y, tol, False, "structural difference %s between graphs" % st)
